@@ -383,3 +383,460 @@ Lemma number_boundary_example :
   m_number (tok ++ [47; 42; 32; 42; 47]) = 5%nat /\
   m_number (bad ++ [32; 53]) = 1%nat /\ m_number (bad ++ [53]) = 3%nat.
 Proof. vm_compute. repeat split; reflexivity. Qed.
+
+(* ------------------------------------------------------------------ 2. byte literals
+   quote ( backslash x H H | backslash anyrune-but-LF | one ASCII byte ) quote, alternatives tried in order.
+   The only look-ahead beyond the literal: after quote backslash quote (3 bytes, third alternative) the second
+   alternative looks at ONE more byte and takes it if it is a quote.  Hence: the match is unchanged for every following
+   text that does not start with a quote. *)
+
+Lemma decode_w_pos : forall c r, (1 <= fst (decode c r))%nat.
+Proof.
+  intros c r. unfold decode.
+  destruct (c <? 128); [cbn; lia|].
+  destruct (inr 194 223 c). { destruct r as [|b1 r]; [cbn; lia|]. destruct (is_cont b1); cbn; lia. }
+  destruct (inr 224 239 c).
+  { destruct r as [|b1 [|b2 r]]; try (cbn; lia). cbv zeta.
+    match goal with |- context [if ?b then _ else _] => destruct b end; cbn; lia. }
+  destruct (inr 240 244 c).
+  { destruct r as [|b1 [|b2 [|b3 r]]]; try (cbn; lia). cbv zeta.
+    match goal with |- context [if ?b then _ else _] => destruct b end; cbn; lia. }
+  cbn; lia.
+Qed.
+
+(* the closing quote (an ASCII byte, not a continuation byte) ends the look-ahead of the rune decoder *)
+Lemma decode_quote_stop : forall c0 y r r', decode c0 (y ++ 39 :: r) = decode c0 (y ++ 39 :: r').
+Proof.
+  intros c0 y r r'. unfold decode.
+  destruct (c0 <? 128); [reflexivity|].
+  destruct (inr 194 223 c0). { destruct y as [|b1 y]; reflexivity. }
+  destruct (inr 224 239 c0).
+  { destruct y as [|b1 [|b2 y]]; cbn [app]; try reflexivity.
+    destruct r as [|x1 r]; destruct r' as [|z1 r']; cbv zeta;
+      destruct (c0 =? 224); destruct (c0 =? 237); reflexivity. }
+  destruct (inr 240 244 c0).
+  { destruct y as [|b1 [|b2 [|b3 y]]]; cbn [app]; try reflexivity.
+    - destruct r as [|x1 [|x2 r]]; destruct r' as [|z1 [|z2 r']]; cbv zeta;
+        destruct (c0 =? 240); destruct (c0 =? 244); reflexivity.
+    - destruct r as [|x1 r]; destruct r' as [|z1 r']; cbv zeta; try reflexivity;
+        match goal with |- context [inr ?lo ?hi b1] => destruct (inr lo hi b1) end; reflexivity. }
+  reflexivity.
+Qed.
+
+Lemma byte_alt1_h1 : forall a b h1 x, byte_alt1 (a :: b :: h1 :: x) = true -> b = 120 /\ is_hex h1 = true.
+Proof.
+  intros a b h1 x H. destruct x as [|h2 [|q x]]; cbn [byte_alt1] in H; try discriminate.
+  repeat (apply andb_true_iff in H; destruct H as [H ?]).
+  split; [apply Z.eqb_eq; assumption | assumption].
+Qed.
+
+Lemma byte_alt1_b : forall a b x, byte_alt1 (a :: b :: x) = true -> b = 120.
+Proof.
+  intros a b x H. destruct x as [|h1 x]; [discriminate|]. apply (byte_alt1_h1 a b h1 x H).
+Qed.
+
+Lemma byte_alt2_cons : forall a c r2, byte_alt2 (a :: c :: r2) =
+  if (a =? 92) && negb (c =? 10) then
+    match skipn (pred (fst (decode c r2))) r2 with
+    | q :: _ => if q =? 39 then (3 + fst (decode c r2))%nat else O
+    | [] => O
+    end
+  else O.
+Proof. reflexivity. Qed.
+
+Lemma byte_alt2_range : forall s, byte_alt2 s = O \/ (4 <= byte_alt2 s)%nat.
+Proof.
+  intros [|a [|c r2]]; [left; reflexivity | left; reflexivity |].
+  rewrite byte_alt2_cons. destruct ((a =? 92) && negb (c =? 10)); [|left; reflexivity].
+  destruct (skipn (pred (fst (decode c r2))) r2) as [|q ?]; [left; reflexivity|].
+  destruct (q =? 39); [|left; reflexivity]. right. pose proof (decode_w_pos c r2). lia.
+Qed.
+
+Lemma byte_alt3_range : forall s, byte_alt3 s = O \/ byte_alt3 s = 3%nat.
+Proof.
+  intros [|c [|q r]]; [left; reflexivity | left; reflexivity |]. cbn [byte_alt3].
+  destruct ((c <? 128) && (q =? 39)); [right | left]; reflexivity.
+Qed.
+
+Theorem m_byte_boundary : forall m r r', m <> [] -> m_byte (m ++ r) = length m -> byte_follow r' ->
+  m_byte (m ++ r') = length m.
+Proof.
+  intros m r r' Hne H Hf. destruct m as [|a m0]; [contradiction|].
+  cbn [app m_byte length] in *. destruct (a =? 39); [|discriminate].
+  destruct (byte_alt1 (m0 ++ r)) eqn:A1.
+  - (* first alternative: exactly five bytes after the quote are read *)
+    destruct m0 as [|x1 [|x2 [|x3 [|x4 [|x5 [|x6 m0]]]]]]; try discriminate.
+    cbn [app] in *. cbn [byte_alt1] in *. rewrite A1. reflexivity.
+  - destruct (byte_alt2 (m0 ++ r)) as [|n] eqn:A2.
+    + (* third alternative: quote c quote *)
+      destruct m0 as [|c0 [|q [|x m0]]]; cbn [app length] in *.
+      * destruct (byte_alt3_range r) as [E|E]; rewrite E in H; discriminate.
+      * destruct (byte_alt3_range (c0 :: r)) as [E|E]; rewrite E in H; discriminate.
+      * cbn [byte_alt3] in H. destruct ((c0 <? 128) && (q =? 39)) eqn:C; [|discriminate].
+        apply andb_true_iff in C. destruct C as [C1 C2]. apply Z.eqb_eq in C2. subst q.
+        destruct (byte_alt1 (c0 :: 39 :: r')) eqn:B1; [apply byte_alt1_b in B1; discriminate|].
+        assert (B2 : byte_alt2 (c0 :: 39 :: r') = O).
+        { rewrite byte_alt2_cons. destruct ((c0 =? 92) && negb (39 =? 10)); [|reflexivity].
+          change (decode 39 r') with (1%nat, 1). cbn [fst pred skipn].
+          destruct r' as [|c r'']; [reflexivity|]. cbn in Hf.
+          destruct (c =? 39) eqn:E; [apply Z.eqb_eq in E; contradiction | reflexivity]. }
+        rewrite B2. cbn [byte_alt3]. rewrite C1. reflexivity.
+      * destruct (byte_alt3_range (c0 :: q :: x :: m0 ++ r)) as [E|E]; rewrite E in H; discriminate.
+    + (* second alternative: quote backslash rune quote *)
+      destruct m0 as [|a2 [|c0 x]]; cbn [app length] in *.
+      * destruct (byte_alt2_range r) as [E|E]; rewrite A2 in E; [discriminate | lia].
+      * destruct (byte_alt2_range (a2 :: r)) as [E|E]; rewrite A2 in E; [discriminate | lia].
+      * rewrite byte_alt2_cons in A2.
+        destruct ((a2 =? 92) && negb (c0 =? 10)) eqn:C; [|discriminate].
+        pose proof (decode_w_pos c0 (x ++ r)) as Wp.
+        remember (fst (decode c0 (x ++ r))) as w eqn:Ew.
+        destruct (skipn (pred w) (x ++ r)) as [|q rest] eqn:Sk; [discriminate|].
+        destruct (q =? 39) eqn:Q; [|discriminate]. apply Z.eqb_eq in Q. subst q.
+        assert (Hw : w = length x) by lia.
+        assert (Hk : (pred w <= length x)%nat) by lia.
+        rewrite (skipn_app_le _ _ x r Hk) in Sk.
+        pose proof (skipn_length (pred w) x) as L.
+        destruct (skipn (pred w) x) as [|z [|z2 zs]] eqn:Sx; cbn [length] in L; try lia.
+        cbn [app] in Sk. injection Sk as Ez _. subst z.
+        pose proof (firstn_skipn (pred w) x) as Fx. rewrite Sx in Fx.
+        set (y := firstn (pred w) x) in *.
+        assert (Ly : length y = pred w).
+        { unfold y. rewrite firstn_length. lia. }
+        rewrite <- Fx in Ew |- *. rewrite <- !app_assoc in *. cbn [app] in *.
+        assert (Ew' : fst (decode c0 (y ++ 39 :: r')) = w).
+        { rewrite (decode_quote_stop c0 y r' r). symmetry. exact Ew. }
+        assert (B1 : byte_alt1 (a2 :: c0 :: y ++ 39 :: r') = false).
+        { destruct (byte_alt1 (a2 :: c0 :: y ++ 39 :: r')) eqn:B; [|reflexivity]. exfalso.
+          destruct y as [|y1 y'].
+          - cbn [app] in B. apply byte_alt1_h1 in B. destruct B as [_ B]. discriminate.
+          - pose proof (byte_alt1_b _ _ _ B) as B0. subst c0.
+            change (decode 120 ((y1 :: y') ++ 39 :: r)) with (1%nat, 1) in Ew. cbn [fst] in Ew.
+            subst w. cbn [length pred] in Ly. discriminate. }
+        rewrite B1. rewrite byte_alt2_cons, C, Ew'. rewrite <- Ly. rewrite skipn_app_exact.
+        rewrite Z.eqb_refl.
+        rewrite ?app_length. cbn [length Nat.add]. lia.
+Qed.
+
+Theorem m_byte_boundary_trivia : forall m r c r', m <> [] -> trivia_start c = true ->
+  m_byte (m ++ r) = length m -> m_byte (m ++ c :: r') = length m.
+Proof.
+  intros m r c r' Hne Hc H. apply (m_byte_boundary m r); [assumption | assumption |].
+  cbn. intro E. subst c. discriminate.
+Qed.
+
+(* the restriction is necessary: quote backslash quote, followed by x / followed by a quote *)
+Lemma byte_follow_necessary :
+  let m := [39; 92; 39] in
+  m_byte (m ++ [120]) = length m /\ m_byte (m ++ [39]) <> length m /\ m_byte (m ++ [32; 39]) = length m.
+Proof. vm_compute. repeat split; try reflexivity. discriminate. Qed.
+
+(* ------------------------------------------------------------------ 3. composition through the ordered table (step) *)
+
+Lemma step_inv : forall s k n, step s = (Tok k, n) -> k <> K_COMMENT ->
+  m_ws s = O /\ m_line s = O /\ m_block s = O /\
+  ( (k = K_STRING /\ m_string s = n /\ n <> O) \/
+    (m_string s = O /\
+     ( (k = K_BYTE /\ m_byte s = n /\ n <> O) \/
+       (m_byte s = O /\
+        ( (k = K_NUMBER /\ m_number s = n /\ n <> O) \/
+          (m_number s = O /\
+           ( (k = K_IDENT /\ m_ident s = n /\ n <> O) \/
+             (m_ident s = O /\ k = K_OP /\ m_op s = n /\ n <> O)))))))).
+Proof.
+  intros s k n H Hk. unfold step in H.
+  destruct (m_ws s); [|discriminate].
+  destruct (m_line s). 2:{ inversion H; subst. exfalso; apply Hk; reflexivity. }
+  destruct (m_block s). 2:{ inversion H; subst. exfalso; apply Hk; reflexivity. }
+  split; [reflexivity|]. split; [reflexivity|]. split; [reflexivity|].
+  destruct (m_string s).
+  2:{ left. inversion H; subst. split; [reflexivity | split; [reflexivity | discriminate]]. }
+  right. split; [reflexivity|].
+  destruct (m_byte s).
+  2:{ left. inversion H; subst. split; [reflexivity | split; [reflexivity | discriminate]]. }
+  right. split; [reflexivity|].
+  destruct (m_number s).
+  2:{ left. inversion H; subst. split; [reflexivity | split; [reflexivity | discriminate]]. }
+  right. split; [reflexivity|].
+  destruct (m_ident s).
+  2:{ left. inversion H; subst. split; [reflexivity | split; [reflexivity | discriminate]]. }
+  right. split; [reflexivity|].
+  destruct (m_op s); [discriminate|].
+  inversion H; subst. split; [reflexivity | split; [reflexivity | discriminate]].
+Qed.
+
+Lemma step_string : forall s n, m_ws s = O -> m_line s = O -> m_block s = O -> m_string s = S n ->
+  step s = (Tok K_STRING, S n).
+Proof. intros s n H1 H2 H3 H4. unfold step. rewrite H1, H2, H3, H4. reflexivity. Qed.
+Lemma step_byte : forall s n, m_ws s = O -> m_line s = O -> m_block s = O -> m_string s = O -> m_byte s = S n ->
+  step s = (Tok K_BYTE, S n).
+Proof. intros s n H1 H2 H3 H4 H5. unfold step. rewrite H1, H2, H3, H4, H5. reflexivity. Qed.
+Lemma step_number : forall s n, m_ws s = O -> m_line s = O -> m_block s = O -> m_string s = O -> m_byte s = O ->
+  m_number s = S n -> step s = (Tok K_NUMBER, S n).
+Proof. intros s n H1 H2 H3 H4 H5 H6. unfold step. rewrite H1, H2, H3, H4, H5, H6. reflexivity. Qed.
+Lemma step_ident : forall s n, m_ws s = O -> m_line s = O -> m_block s = O -> m_string s = O -> m_byte s = O ->
+  m_number s = O -> m_ident s = S n -> step s = (Tok K_IDENT, S n).
+Proof. intros s n H1 H2 H3 H4 H5 H6 H7. unfold step. rewrite H1, H2, H3, H4, H5, H6, H7. reflexivity. Qed.
+Lemma step_op : forall s n, m_ws s = O -> m_line s = O -> m_block s = O -> m_string s = O -> m_byte s = O ->
+  m_number s = O -> m_ident s = O -> m_op s = S n -> step s = (Tok K_OP, S n).
+Proof. intros s n H1 H2 H3 H4 H5 H6 H7 H8. unfold step. rewrite H1, H2, H3, H4, H5, H6, H7, H8. reflexivity. Qed.
+
+(* which first byte each recogniser needs *)
+Lemma m_ws_first : forall a x, m_ws (a :: x) = O <-> is_ws a = false.
+Proof. intros a x. unfold m_ws. cbn [span]. destruct (is_ws a); split; intro H; try reflexivity; discriminate. Qed.
+
+Lemma m_line_not_slash : forall a x, a <> 47 -> m_line (a :: x) = O.
+Proof.
+  intros a x H. destruct x as [|b x]; [reflexivity|]. cbn [m_line].
+  destruct (a =? 47) eqn:E; [apply Z.eqb_eq in E; contradiction | reflexivity].
+Qed.
+Lemma m_block_not_slash : forall a x, a <> 47 -> m_block (a :: x) = O.
+Proof.
+  intros a x H. destruct x as [|b x]; [reflexivity|]. cbn [m_block].
+  destruct (a =? 47) eqn:E; [apply Z.eqb_eq in E; contradiction | reflexivity].
+Qed.
+Lemma m_string_first : forall a x n, m_string (a :: x) = S n -> a = 34.
+Proof. intros a x n H. cbn [m_string] in H. destruct (a =? 34) eqn:E; [apply Z.eqb_eq; assumption | discriminate]. Qed.
+Lemma m_string_not : forall a x, a <> 34 -> m_string (a :: x) = O.
+Proof. intros a x H. cbn [m_string]. destruct (a =? 34) eqn:E; [apply Z.eqb_eq in E; contradiction | reflexivity]. Qed.
+Lemma m_byte_first : forall a x n, m_byte (a :: x) = S n -> a = 39.
+Proof. intros a x n H. cbn [m_byte] in H. destruct (a =? 39) eqn:E; [apply Z.eqb_eq; assumption | discriminate]. Qed.
+Lemma m_byte_not : forall a x, a <> 39 -> m_byte (a :: x) = O.
+Proof. intros a x H. cbn [m_byte]. destruct (a =? 39) eqn:E; [apply Z.eqb_eq in E; contradiction | reflexivity]. Qed.
+Lemma m_ident_first : forall a x, m_ident (a :: x) = O <-> is_alpha_ a = false.
+Proof. intros a x. cbn [m_ident]. destruct (is_alpha_ a); split; intro H; try reflexivity; discriminate. Qed.
+
+Lemma m_unsigned_nondigit : forall a x, is_digit a = false -> m_unsigned (a :: x) = O.
+Proof.
+  intros a x H.
+  assert (E : (a =? 48) = false). { apply Z.eqb_neq. apply inr_false in H. lia. }
+  assert (P : forall p P d, prefixed p P d (a :: x) = O).
+  { intros p P d. destruct x as [|c x']; [reflexivity|]. cbn [prefixed]. rewrite E. reflexivity. }
+  unfold m_unsigned. rewrite !P. unfold m_float. cbn [digits1]. rewrite H. reflexivity.
+Qed.
+
+Lemma m_number_first : forall a x n, m_number (a :: x) = S n -> (48 <= a <= 57) \/ a = 45.
+Proof.
+  intros a x n H. cbn [m_number] in H. destruct (a =? 45) eqn:E; [right; apply Z.eqb_eq; assumption|].
+  left. destruct (is_digit a) eqn:D; [apply inr_true in D; assumption|].
+  rewrite (m_unsigned_nondigit a x D) in H. discriminate.
+Qed.
+
+Lemma is_alpha_range : forall a, is_alpha_ a = true -> 65 <= a.
+Proof.
+  intros a H. unfold is_alpha_ in H.
+  apply orb_true_iff in H. destruct H as [H|H]; [apply orb_true_iff in H; destruct H as [H|H]|].
+  - apply inr_true in H. lia.
+  - apply inr_true in H. lia.
+  - apply Z.eqb_eq in H. lia.
+Qed.
+
+Lemma first_op_head : forall tbl a x n, first_op tbl (a :: x) = S n -> In a (map (hd 0) tbl).
+Proof.
+  induction tbl as [|o tbl IH]; intros a x n H; cbn [first_op] in H; [discriminate|].
+  cbn [map In]. destruct (is_prefix o (a :: x)) eqn:E.
+  - left. destruct o as [|b o']; [discriminate|]. cbn [is_prefix] in E.
+    apply andb_true_iff in E. destruct E as [E _]. apply Z.eqb_eq in E. cbn [hd]. assumption.
+  - right. apply (IH a x n H).
+Qed.
+
+Lemma op_head_not_quote : forall a x n, m_op (a :: x) = S n -> a <> 34 /\ a <> 39.
+Proof.
+  intros a x n H. unfold m_op in H. apply first_op_head in H.
+  assert (F : forallb (fun b => negb (b =? 34) && negb (b =? 39)) (map (hd 0) ops) = true) by (vm_compute; reflexivity).
+  rewrite forallb_forall in F. specialize (F a H).
+  apply andb_true_iff in F. destruct F as [F1 F2].
+  apply negb_true_iff in F1. apply negb_true_iff in F2. apply Z.eqb_neq in F1. apply Z.eqb_neq in F2. split; assumption.
+Qed.
+
+Lemma m_op_slash : forall x, m_op (47 :: x) = match x with b :: _ => if 61 =? b then 2%nat else 1%nat | [] => 1%nat end.
+Proof.
+  intros x. unfold m_op, ops. destruct x as [|b x]; cbn; [reflexivity|].
+  destruct (61 =? b); reflexivity.
+Qed.
+
+Lemma is_prefix_short_false : forall o m, (length m < length o)%nat -> is_prefix o m = false.
+Proof.
+  induction o as [|a o IH]; intros m H; [cbn in H; lia|].
+  destruct m as [|b m]; [reflexivity|]. cbn [is_prefix]. rewrite IH by (cbn in H; lia). apply andb_false_r.
+Qed.
+
+Lemma first_op_eof : forall tbl m r, first_op tbl (m ++ r) = length m -> first_op tbl m = length m.
+Proof.
+  induction tbl as [|o tbl IH]; intros m r H; cbn [first_op] in *.
+  - destruct m; [reflexivity | discriminate].
+  - destruct (Nat.leb (length o) (length m)) eqn:El.
+    + apply Nat.leb_le in El. rewrite is_prefix_app_short in H by assumption.
+      destruct (is_prefix o m); [assumption | apply (IH m r H)].
+    + apply Nat.leb_gt in El. rewrite is_prefix_short_false by assumption.
+      destruct (is_prefix o (m ++ r)); [lia | apply (IH m r H)].
+Qed.
+
+Lemma trivia_follows_start : forall m r', trivia_follows m r' ->
+  match r' with [] => True | c :: _ => trivia_start c = true end.
+Proof.
+  intros m [|c r'] H; [exact I|]. cbn in H. unfold trivia_start. destruct H as [H|[H _]].
+  - rewrite H. reflexivity.
+  - subst c. reflexivity.
+Qed.
+
+(* the operator `/` : the comment patterns, which come first in the table, must still fail *)
+Lemma comment_zero_slash_op : forall m0 r r', m_op (47 :: m0 ++ r) = S (length m0) -> trivia_follows (47 :: m0) r' ->
+  m_line (47 :: m0 ++ r') = O /\ m_block (47 :: m0 ++ r') = O.
+Proof.
+  intros m0 r r' H Hf. rewrite m_op_slash in H.
+  destruct m0 as [|b [|b2 m0]]; cbn [app length] in *.
+  - destruct r' as [|c r'']; [split; reflexivity|]. cbn in Hf. destruct Hf as [Hf|[_ Hf]]; [|contradiction].
+    apply ws_cases in Hf. destruct Hf as [-> | [-> | [-> | [-> | ->]]]]; split; reflexivity.
+  - destruct (61 =? b) eqn:E; [|discriminate]. apply Z.eqb_eq in E. subst b. split; reflexivity.
+  - destruct (61 =? b); discriminate.
+Qed.
+
+(* Every significant token of every kind: if the table, applied to m ++ r, yields the token m, then it yields the same
+   token (same class, same length, hence same text) on m ++ r' for every r' that is empty or starts with whitespace, or
+   starts with a slash provided m is not the operator `/`. *)
+Theorem token_boundary_all_kinds : forall m r r' k,
+  m <> [] -> significant_cls k -> step (m ++ r) = (Tok k, length m) -> trivia_follows m r' ->
+  step (m ++ r') = (Tok k, length m).
+Proof.
+  intros m r r' k Hne Hk H Hf.
+  assert (Hkc : k <> K_COMMENT) by (destruct Hk as [->|[->|[->|[->|->]]]]; discriminate).
+  destruct (step_inv _ _ _ H Hkc) as [Hw [Hl [Hb Hc]]].
+  pose proof (trivia_follows_start _ _ Hf) as Hs.
+  assert (Fn : num_follow r').
+  { destruct r' as [|c r'']; [exact I|]. cbn. apply trivia_start_num_stop. exact Hs. }
+  assert (Fb : byte_follow r').
+  { destruct r' as [|c r'']; [exact I|]. cbn. intro E. subst c. discriminate. }
+  destruct m as [|a m0]; [contradiction|].
+  cbn [app length] in *.
+  assert (Hw' : m_ws (a :: m0 ++ r') = O).
+  { apply (proj2 (m_ws_first a _)). apply (proj1 (m_ws_first a _)) in Hw. exact Hw. }
+  destruct Hc as [[-> [Hm _]] | [Hs0 Hc]].
+  { (* string literal *)
+    pose proof (m_string_first _ _ _ Hm). subst a.
+    apply step_string; [exact Hw' | apply m_line_not_slash; lia | apply m_block_not_slash; lia |].
+    apply (m_string_boundary (34 :: m0) r r'); [discriminate | exact Hm]. }
+  destruct Hc as [[-> [Hm _]] | [Hb0 Hc]].
+  { (* byte literal *)
+    pose proof (m_byte_first _ _ _ Hm). subst a.
+    apply step_byte; [exact Hw' | apply m_line_not_slash; lia | apply m_block_not_slash; lia | apply m_string_not; lia |].
+    apply (m_byte_boundary (39 :: m0) r r'); [discriminate | exact Hm | exact Fb]. }
+  destruct Hc as [[-> [Hm _]] | [Hn0 Hc]].
+  { (* number *)
+    pose proof (m_number_first _ _ _ Hm) as Ha.
+    apply step_number; [exact Hw' | apply m_line_not_slash; lia | apply m_block_not_slash; lia
+                       | apply m_string_not; lia | apply m_byte_not; lia |].
+    apply (m_number_boundary (a :: m0) r r'); [exact Hm | exact Fn]. }
+  destruct Hc as [[-> [Hm _]] | [Hi0 [-> [Hm _]]]].
+  { (* identifier / keyword *)
+    assert (Ha : is_alpha_ a = true).
+    { destruct (is_alpha_ a) eqn:E; [reflexivity|]. apply (proj2 (m_ident_first a (m0 ++ r))) in E.
+      rewrite E in Hm. discriminate. }
+    apply is_alpha_range in Ha.
+    apply step_ident; [exact Hw' | apply m_line_not_slash; lia | apply m_block_not_slash; lia
+                      | apply m_string_not; lia | apply m_byte_not; lia
+                      | apply (m_number_zero (a :: m0) r r' Hn0 Fn) |].
+    destruct r' as [|c r''].
+    - rewrite app_nil_r. apply (m_ident_boundary_eof (a :: m0) r); [discriminate | exact Hm].
+    - apply (m_ident_boundary (a :: m0) r c r''); [discriminate | exact Hm |].
+      apply trivia_start_cases in Hs. destruct Hs as [-> | [-> | [-> | [-> | [-> | ->]]]]]; reflexivity. }
+  (* operator / punctuation *)
+  destruct (op_head_not_quote _ _ _ Hm) as [Hq1 Hq2].
+  assert (Hi' : m_ident (a :: m0 ++ r') = O).
+  { apply (proj2 (m_ident_first a _)). apply (proj1 (m_ident_first a _)) in Hi0. exact Hi0. }
+  assert (Hcm : m_line (a :: m0 ++ r') = O /\ m_block (a :: m0 ++ r') = O).
+  { destruct (Z.eq_dec a 47) as [->|Hne47].
+    - apply (comment_zero_slash_op m0 r r'); assumption.
+    - split; [apply m_line_not_slash | apply m_block_not_slash]; assumption. }
+  destruct Hcm as [Hl' Hb'].
+  apply step_op; [exact Hw' | exact Hl' | exact Hb' | apply m_string_not; assumption | apply m_byte_not; assumption
+                 | apply (m_number_zero (a :: m0) r r' Hn0 Fn) | exact Hi' |].
+  destruct r' as [|c r''].
+  - rewrite app_nil_r. unfold m_op in *. apply (first_op_eof ops (a :: m0) r). exact Hm.
+  - apply (m_op_boundary (a :: m0) r c r''); [discriminate | exact Hs | exact Hm].
+Qed.
+
+(* in the form asked for: the following text starts with trivia (whitespace, `//` or `/` `*`) *)
+Corollary token_boundary_trivia : forall m r t k,
+  m <> [] -> significant_cls k -> step (m ++ r) = (Tok k, length m) -> starts_trivia t = true ->
+  (m <> [47] \/ is_ws (hd 0 t) = true) ->
+  step (m ++ t) = (Tok k, length m).
+Proof.
+  intros m r t k Hne Hk H Ht Hside. apply (token_boundary_all_kinds m r t k Hne Hk H).
+  destruct t as [|c t1]; [discriminate|]. cbn [trivia_follows]. cbn [starts_trivia] in Ht. cbn [hd] in Hside.
+  destruct (is_ws c) eqn:W; [left; reflexivity|]. right.
+  cbn [orb] in Ht. apply andb_true_iff in Ht. destruct Ht as [Ht _]. apply Z.eqb_eq in Ht.
+  split; [assumption|]. destruct Hside as [Hside|Hside]; [assumption | discriminate].
+Qed.
+
+(* next_state: the token text (firstn of the match) and the remainder after it *)
+Lemma next_state_token : forall P m r k, m <> [] -> significant_cls k -> ascii_bytes m ->
+  step (m ++ r) = (Tok k, length m) -> next_state P (m ++ r) = (Tok k, advance P m, r, m).
+Proof.
+  intros P m r k Hne Hk Ha H. unfold next_state. rewrite H.
+  rewrite firstn_app_exact. unfold advance. rewrite adv_idx_ascii by assumption.
+  replace (idx P + Z.of_nat (length m) - idx P) with (Z.of_nat (length m)) by lia.
+  rewrite Nat2Z.id, skipn_app_exact. reflexivity.
+Qed.
+
+(* Token sequence: an ASCII token m followed by whitespace t and then the rest post.  The lexer yields the token m at
+   P, skips t in one match, and continues exactly as it does on m ++ post, with every later token and bad-character
+   diagnostic moved by the shift of the gap. *)
+Theorem ws_after_token_sequence : forall fuel P m post t k,
+  m <> [] -> significant_cls k -> ascii_bytes m -> step (m ++ post) = (Tok k, length m) ->
+  t <> [] -> all_ws t -> starts_non_ws post ->
+  let Q := advance P m in
+  lex_loop (S (S fuel)) P (m ++ t ++ post) =
+    mktok k P Q m :: map (gap_shift_tok Q (advance Q t)) (lex_loop fuel Q post) /\
+  lex_loop (S fuel) P (m ++ post) = mktok k P Q m :: lex_loop fuel Q post /\
+  bad_loop (S (S fuel)) P (m ++ t ++ post) = map (gap_shift Q (advance Q t)) (bad_loop fuel Q post) /\
+  bad_loop (S fuel) P (m ++ post) = bad_loop fuel Q post.
+Proof.
+  intros fuel P m post t k Hne Hk Ha H Htne Ht Hp Q.
+  assert (H' : step (m ++ t ++ post) = (Tok k, length m)).
+  { apply (token_boundary_all_kinds m post (t ++ post) k Hne Hk H).
+    destruct t as [|c t']; [contradiction|]. cbn [app trivia_follows]. left. inversion Ht; assumption. }
+  pose proof (next_state_token P m (t ++ post) k Hne Hk Ha H') as N1.
+  pose proof (next_state_token P m post k Hne Hk Ha H) as N2.
+  destruct (ws_insert_shift fuel Q t post Htne Ht Hp) as [W1 W2].
+  assert (Hm : exists a m0, m = a :: m0) by (destruct m as [|a m0]; [contradiction | eauto]).
+  destruct Hm as [a [m0 Em]].
+  repeat split.
+  - change (lex_loop (S (S fuel)) P (m ++ t ++ post)) with
+      (match m ++ t ++ post with [] => [mktok K_EOF P P []] | _ =>
+         let '(it, p', s', m1) := next_state P (m ++ t ++ post) in
+         match it with Tok k0 => mktok k0 P p' m1 :: lex_loop (S fuel) p' s' | _ => lex_loop (S fuel) p' s' end end).
+    rewrite N1. rewrite Em at 1. cbn [app]. fold Q. rewrite W1. reflexivity.
+  - change (lex_loop (S fuel) P (m ++ post)) with
+      (match m ++ post with [] => [mktok K_EOF P P []] | _ =>
+         let '(it, p', s', m1) := next_state P (m ++ post) in
+         match it with Tok k0 => mktok k0 P p' m1 :: lex_loop fuel p' s' | _ => lex_loop fuel p' s' end end).
+    rewrite N2. rewrite Em at 1. cbn [app]. reflexivity.
+  - change (bad_loop (S (S fuel)) P (m ++ t ++ post)) with
+      (match m ++ t ++ post with [] => [] | _ =>
+         let '(it, p', s', _) := next_state P (m ++ t ++ post) in
+         match it with Bad => P :: bad_loop (S fuel) p' s' | _ => bad_loop (S fuel) p' s' end end).
+    rewrite N1. rewrite Em at 1. cbn [app]. fold Q. rewrite W2. reflexivity.
+  - change (bad_loop (S fuel) P (m ++ post)) with
+      (match m ++ post with [] => [] | _ =>
+         let '(it, p', s', _) := next_state P (m ++ post) in
+         match it with Bad => P :: bad_loop fuel p' s' | _ => bad_loop fuel p' s' end end).
+    rewrite N2. rewrite Em at 1. cbn [app]. reflexivity.
+Qed.
+
+(* non-vacuity: one token of every kind, each followed by text that continues differently *)
+Lemma all_kinds_example :
+  step ([34; 97; 34] ++ [59]) = (Tok K_STRING, 3%nat) /\
+  step ([39; 92; 110; 39] ++ [59]) = (Tok K_BYTE, 4%nat) /\
+  step ([49; 46; 53; 101; 45; 51] ++ [43; 49]) = (Tok K_NUMBER, 6%nat) /\
+  step ([120; 49] ++ [40]) = (Tok K_IDENT, 2%nat) /\
+  step ([60; 61] ++ [45; 49]) = (Tok K_OP, 2%nat) /\
+  step ([47] ++ [49]) = (Tok K_OP, 1%nat) /\
+  trivia_follows [49; 46; 53; 101; 45; 51] [47; 42; 42; 47; 43; 49] /\
+  step ([49; 46; 53; 101; 45; 51] ++ [47; 42; 42; 47; 43; 49]) = (Tok K_NUMBER, 6%nat) /\
+  ~ trivia_follows [47] [47; 42; 42; 47; 49] /\
+  step ([47] ++ [47; 42; 42; 47; 49]) = (Tok K_COMMENT, 2%nat).
+Proof.
+  vm_compute. repeat split; try reflexivity.
+  - right. split; [reflexivity | discriminate].
+  - intros [H|[_ H]]; [discriminate | apply H; reflexivity].
+Qed.
